@@ -93,7 +93,7 @@ pub fn run(args: &Args) {
             rt.block_on(async {
                 let sim = Sim::start().await;
                 let sites = ["KDMX", "KTLX", "PHWA"];
-                let specials = ["a&b", "<x>", "q\"'", "é€", "x y", "plus+sign", "pct%41", "ü-002-I"];
+                let specials = ["a&b", "<x>", "q\"'", "é€", "x y", "plus+sign", "pct%41", "ü-002-I", " lead", "trail ", "\ttab\n", "in\nner"];
                 // ---- listings
                 let rounds = if args.thorough { 60 } else { 14 };
                 for k in 0..rounds {
